@@ -398,7 +398,7 @@ theorem fmtRest_spec {F : Fmt} {P : Pres} {ok : Br → Bool} (hF : FmtSpec F P o
     simp [andThen, presRest, hF.infx]
 
 theorem formulaToFormat_render {F : Fmt} {P : Pres} {ok : Br → Bool} (hF : FmtSpec F P ok) (f : Formula) (h : f.WF)
-    (hb : ∀ q ∈ f.parts, termsBrAll ok q.terms = true) (h0 : ∀ c, f.charge = some c → c.val ≠ 0) :
+    (hb : ∀ q ∈ f.parts, termsBrAll ok q.terms = true) :
     formulaToFormat F suffixesL f.render = .ok (present P f) := by
   have hd := Formula.wfd f h
   obtain ⟨p, ps, hp, hn⟩ := hd.first
@@ -419,8 +419,10 @@ theorem formulaToFormat_render {F : Fmt} {P : Pres} {ok : Br → Bool} (hF : Fmt
     | none => simp [fmtCharge, presCharge]
     | some c =>
       obtain ⟨ds, sg, e, hds, hsg⟩ := chargeTok_shape c
-      simp only [Option.map_some, fmtCharge, getCharge_render c (hd.charge c hc), chargeToken_val c (h0 c hc), presCharge]
-      rw [e, hF.sup ds sg hds hsg]
+      by_cases hz : c.val = 0
+      · simp [fmtCharge, getCharge_render c (hd.charge c hc), hz, presCharge]
+      · simp only [Option.map_some, fmtCharge, getCharge_render c (hd.charge c hc), chargeToken_val c hz, presCharge, hz, if_false]
+        rw [e, hF.sup ds sg hds hsg]
   rw [hchg]
   simp only [hpre]
   cases hs : f.suffix <;> simp [present, presParts, hp, hs, suffixList, renderSuffix, List.append_assoc]
@@ -663,7 +665,7 @@ theorem renderParts_dots (p : Part) (ps : List Part) :
     simp [restText, Sep.text]
 
 theorem scan_charge (c : Charge) (r : Str) :
-    scan toks 0 0 [] (presCharge P (some c) ++ r) = (canonCharge c).render ++ scan toks 0 0 [] r := by
+    scan toks 0 0 [] (P.sup (chargeTok c) ++ r) = (canonCharge c).render ++ scan toks 0 0 [] r := by
   obtain ⟨ds, sg, e, hds, hsg⟩ := chargeTok_shape c
   have e2 : (canonCharge c).render = sg :: ds := by
     have e' := e
@@ -676,7 +678,6 @@ theorem scan_charge (c : Charge) (r : Str) :
     cases c.mag with
     | none => simp
     | some d => by_cases e1 : digitsVal d = 1 <;> simp [e1]
-  simp only [presCharge]
   rw [e, hU.sup ds sg r hds hsg, e2]
   simp
 
@@ -732,7 +733,7 @@ theorem unFormat_present (f : Formula) (h : f.WF) : unFormat tbl toks (present P
     intro q hq
     exact hU.key_val q (hd.prefixes.subset hq)
   have hscan : scan toks 0 0 [] body
-      = renderParts .dots (f.parts.map canonPart) ++ (renderCharge (f.charge.map canonCharge) ++ renderSuffix f.suffix) := by
+      = renderParts .dots (f.parts.map canonPart) ++ (renderCharge (f.charge.bind canonChargeOpt) ++ renderSuffix f.suffix) := by
     rw [hbody, scan_terms hU p.terms ht, List.append_assoc,
       scan_rest hU ps (fun q hq => hd.parts q (by simp [hp, hq]))]
     have hcp : (canonPart p).render = p.terms.render := by simp [canonPart, Part.render, hn, canonN]
@@ -749,8 +750,11 @@ theorem unFormat_present (f : Formula) (h : f.WF) : unFormat tbl toks (present P
     cases hc : f.charge with
     | none => simp [presCharge, renderCharge, hend]
     | some c =>
-      rw [scan_charge hU c, hend]
-      simp [renderCharge]
+      by_cases hz : c.val = 0
+      · simp [presCharge, canonChargeOpt, hz, renderCharge, hend]
+      · simp only [presCharge, hz, if_false]
+        rw [scan_charge hU c, hend]
+        simp [renderCharge, canonChargeOpt, hz]
   have hpres : present P f = (f.prefixes.map P.pre).flatten ++ body := by simp [present, body]
   unfold unFormat
   rw [hpres, hstrip]
@@ -803,19 +807,43 @@ theorem canon_denote (f : Formula) (k : Nat) : (canon f).denote k = f.denote k :
   rw [canon_occurrences]
   by_cases hk : k = 0
   · simp only [hk, if_true]
-    show (match (f.charge.map canonCharge) with | none => (0 : Rat) | some c => (c.val : Rat)) = _
+    show (match (f.charge.bind canonChargeOpt) with | none => (0 : Rat) | some c => (c.val : Rat)) = _
     cases f.charge with
     | none => rfl
-    | some c => simp [canonCharge_val]
+    | some c =>
+      by_cases hz : c.val = 0
+      · simp [canonChargeOpt, hz]
+      · simp [canonChargeOpt, hz, canonCharge_val]
   · simp [hk]
 
-theorem canon_composition (f : Formula) : (canon f).composition = f.composition := by
-  unfold Formula.composition
+/-- is the charge token written with value zero (`+0`, `-00`)? -/
+def zeroCharge (f : Formula) : Bool :=
+  match f.charge with
+  | some c => decide (c.val = 0)
+  | none => false
+
+/-- the composition dict of `canon f`: that of `f`, except that a charge written with value zero contributes no key 0 -/
+theorem canon_composition (f : Formula) :
+    (canon f).composition = if zeroCharge f = true then mergeComp f.occurrences else f.composition := by
+  unfold Formula.composition zeroCharge
   rw [canon_occurrences]
-  show (match (f.charge.map canonCharge) with | none => _ | some ch => _) = _
+  show (match (f.charge.bind canonChargeOpt) with | none => _ | some ch => _) = _
   cases f.charge with
-  | none => rfl
-  | some c => simp [canonCharge_val]
+  | none => simp
+  | some c =>
+    by_cases hz : c.val = 0
+    · simp [canonChargeOpt, hz]
+    · simp [canonChargeOpt, hz, canonCharge_val]
+
+theorem zero_composition (f : Formula) (h : zeroCharge f = true) : f.composition = setKey 0 0 (mergeComp f.occurrences) := by
+  unfold Formula.composition
+  unfold zeroCharge at h
+  cases hc : f.charge with
+  | none => rw [hc] at h; exact absurd h (by decide)
+  | some c =>
+    rw [hc] at h
+    have : c.val = 0 := by simpa using h
+    simp [this]
 
 theorem lastFinalOK_canon (ps : List Part) : lastFinalOK (ps.map canonPart) = lastFinalOK ps := by
   induction ps with
@@ -831,7 +859,9 @@ theorem canonN_wf (n : Option Str) : (match canonN n with | none => true | some 
   | none => rfl
   | some ds => by_cases e : digitsVal ds = 1 <;> simp [e, natStr_isDigits]
 
-theorem canon_wf (f : Formula) (h : f.WF) : (canon f).WF := by
+/-- `canon f` is again well-formed.  The side condition only concerns a charge written with value zero: dropping that token must not
+    expose a final state `(s) (l) (g) (aq)` of the last term as if it were a phase suffix (e.g. `H2O(aq)+0`). -/
+theorem canon_wf (f : Formula) (h : f.WF) (hz : zeroCharge f = true → lastFinalOK f.parts = true) : (canon f).WF := by
   have hd := Formula.wfd f h
   obtain ⟨p, ps, hp, hn⟩ := hd.first
   unfold Formula.WF Formula.wf
@@ -849,7 +879,11 @@ theorem canon_wf (f : Formula) (h : f.WF) : (canon f).WF := by
   · simp only [canon]
     cases hc : f.charge with
     | none => rfl
-    | some c => exact canonN_wf c.mag
+    | some c =>
+      by_cases hz' : c.val = 0
+      · simp [canonChargeOpt, hz']
+      · simp only [canonChargeOpt, hz', if_false, Option.bind_some]
+        exact canonN_wf c.mag
   · simp only [canon]
     cases hs : f.suffix with
     | none => rfl
@@ -858,7 +892,11 @@ theorem canon_wf (f : Formula) (h : f.WF) : (canon f).WF := by
     rcases hd.final with h7 | h7
     · cases hc : f.charge with
       | none => rw [hc] at h7; exact absurd h7 (by decide)
-      | some c => simp
+      | some c =>
+        by_cases hz' : c.val = 0
+        · have := hz (by simp [zeroCharge, hc, hz'])
+          simp [this]
+        · simp [canonChargeOpt, hz']
     · simp [h7]
 
 /-! ## Part 5: LaTeX brace escaping is the identity on brace-free formulas -/
